@@ -16,6 +16,9 @@ from typing import Any
 
 from .. import core, ipsref, simenv
 from ..runner import Stats, Violation
+from ..stepclock import run_clocked
+
+STEP_BUDGET = 2_000_000
 
 PROP = "C11"
 LEVEL = "exploration"
@@ -202,12 +205,22 @@ def _child(root: str, case: dict[str, Any]) -> dict[str, Any]:
                 fired_before = len(env.fired) if env is not None else 0
                 try:
                     if name == "begin":
-                        writer.begin()
+                        fn = writer.begin
                     elif name == "end":
-                        writer.end()
+                        fn = writer.end
                     else:
                         a, data = blocks[arg]
-                        writer.write_block(data, a)
+                        fn = lambda a=a, data=data: writer.write_block(data, a)  # noqa: E731
+                    # deterministic step clock: a writer call needs a handful of steps per 64 KiB slice
+                    _v, exc, steps, timed_out = run_clocked(fn, STEP_BUDGET)
+                    res["steps"] = res.get("steps", 0) + steps
+                    if timed_out:
+                        res["hung_in"] = name
+                        res["hung_arg"] = None if name != "write_block" else (blocks[arg][0], len(blocks[arg][1]))
+                        break
+                    if exc is not None:
+                        raise exc
+                    if name == "write_block":
                         done_blocks += 1
                 except BaseException as e:  # noqa: BLE001
                     fired_now = env is not None and len(env.fired) > fired_before
@@ -248,6 +261,9 @@ def _child(root: str, case: dict[str, Any]) -> dict[str, Any]:
     # ---- oracle (harness code, runs here because the data is here)
     verdicts = res["verdicts"]
     faulted = bool(res["fired"])
+    if res.get("hung_in"):
+        verdicts.append(("writer_call_does_not_return", res["hung_in"], f"{res['hung_in']}({res.get('hung_arg')}) was still running after {STEP_BUDGET} interpreter steps"))
+        return res
     if res["swallowed"]:
         verdicts.append(("swallowed_write_error", f"call={res['swallowed_in']}", f"an injected write error fired inside {res['swallowed_in']}() and the call returned normally"))
         return res
@@ -262,7 +278,8 @@ def _child(root: str, case: dict[str, Any]) -> dict[str, Any]:
         i = res["refused_at"]
         a, data = blocks[i]
         cls = addr_class(a, len(data), shift)
-        if cls in ("low", "other", "ends_at_2^24") or len(data) == 0:
+        if cls in ("low", "other", "ends_at_2^24"):
+            # (an empty block at an unrepresentable address may be refused or ignored: both accepted)
             verdicts.append(("unexpected_refusal", cls, f"write_block(len={len(data)}, addr={a:#x}) raised {res['refusal']} although IPS can represent it"))
         res["refused_class"] = cls
         return res  # file after a refused block is undefined: not judged
@@ -315,6 +332,7 @@ def run_case(case: dict[str, Any], stats: Stats) -> list[Violation]:
     stats.evaluations += 1
     stats.chain_add(res["events"], res["fired"], res.get("refused_at"), res.get("refusal"), res.get("fault_in_call"), res.get("image_digest"), res.get("file_len"), res["verdicts"])
     stats.io_ops += len(res["events"])
+    stats.steps += int(res.get("steps", 0))
     for f in res["fired"]:
         stats.bump(f"fault_fired:{f['op']}:{f['role']}:{f['errno']}")
     for k, v in res["counts"].items():
